@@ -250,7 +250,7 @@ var allocatingStd = map[string]map[string]bool{
 }
 
 func checkC16Constructs(w *World, r *Report, hot *hotRegion) {
-	ru := r.Rule("C16.2", "no allocating construct in the hot region that the escape diagnostics do not name: no defer inside a loop, no go statement, map/channel creation, closure with captured variables, non-constant string concatenation, string/[]byte conversion, boxing of non-pointer values, or call of an allocating standard helper; every append extends a pooled buffer of the context in place and its result is stored back into that buffer", 10)
+	ru := r.Rule("C16.2", "no allocating construct in the hot region that the escape diagnostics do not name: no defer inside a loop, no go statement, map/channel creation, closure with captured variables, non-constant string concatenation, string/[]byte conversion, boxing of non-pointer values, or call of an allocating standard helper; every append extends a pooled buffer of the context in place and its result is stored back into that buffer", 5)
 	so := newSliceOwn(w, func(*ssa.Function) bool { return true })
 	type unit struct {
 		fn     *ssa.Function
@@ -398,7 +398,7 @@ func fieldOwnerType(w *World, f *types.Var) types.Type {
 }
 
 func checkC16Provisioning(w *World, r *Report) {
-	ru := r.Rule("C16.3", "buffers are provisioned from the tree: every success path of tXn.insert records the route's parameter count (updateMaxParams(route.psLen)) and, where it builds new nodes, the depth; commit and txn carry maxParams and depth over; allocateContext sizes params and tsrParams with the same capacity (maxParams) and the skip stack from depth; the context pools are only ever given allocateContext of their own tree", 6)
+	ru := r.Rule("C16.3", "buffers are provisioned from the tree: every success path of tXn.insert records the route's parameter count (updateMaxParams(route.psLen)) and, where it builds new nodes, the depth; commit and txn carry maxParams and depth over; allocateContext sizes params and tsrParams with the same capacity (maxParams) and the skip stack from depth; the context pools are only ever given allocateContext of their own tree", 3)
 	inner := w.FoxType("tXn")
 	insert := w.Method("tXn", "insert")
 	ump, umd := w.Method("tXn", "updateMaxParams"), w.Method("tXn", "updateMaxDepth")
